@@ -401,7 +401,7 @@ impl<'a> Substr<'a> {
             return false;
         }
         let mut slice = self.slice;
-        if slice[0] == b'-' {
+        if slice[0] == b'-' || slice[0] == b'+' {
             if slice.len() < 2 {
                 return false;
             }
@@ -417,7 +417,7 @@ impl<'a> Substr<'a> {
             return None;
         }
         let mut slice = self.slice;
-        if slice[0] == b'-' {
+        if slice[0] == b'-' || slice[0] == b'+' {
             if slice.len() < 2 {
                 return None;
             }
